@@ -653,23 +653,34 @@ ReqRefNames(ns, i) ==
   LET f == ns[i].f  n == ns[i].n IN
   CASE f \in {"Param", "Header", "Cookie"} -> {BaseName(n)} \cap AttrNames
     [] f \in {"MapParams", "Body"} /\ n \in AttrNames -> {n}
-    [] f = "Body" /\ n = "-" /\ ns[i].t = "-" /\ ns[i].v \in OpenVars -> DeclNames(ns, i)
     [] f \in Verbs -> Wildcards(n)
     [] OTHER -> {}
 \* names a node refers to in the method result when it is a direct child of a success response
 ResRefNames(ns, i) ==
   LET f == ns[i].f  n == ns[i].n IN
   CASE f \in {"Header", "Cookie"} -> {BaseName(n)} \cap AttrNames
-    [] f \in {"Body", "Tag"} /\ n \in AttrNames -> {n}
+    [] f = "Body" /\ n \in AttrNames -> {n}
     [] OTHER -> {}
+\* Body(func() { Attribute("x") }) in the method's HTTP block: the body attributes are payload attributes
+BodyRefNames(ns, i) == IF ns[i].f = "Body" /\ ns[i].n = "-" /\ ns[i].t = "-" /\ ns[i].v \in OpenVars THEN DeclNames(ns, i) ELSE {}
+\* Tag("x", v) in a success response: x is a result attribute
+TagRefNames(ns, i) == IF ns[i].f = "Tag" /\ ns[i].n \in AttrNames THEN {ns[i].n} ELSE {}
 
 DanglingRequestMapping(ns) == \E i \in Idx(ns) :
   /\ ns[i].p # 0 /\ EndpointBlock(ns, ns[i].p, "HTTP") /\ WellPlaced(ns, i) /\ NoParentSvc(ns)
   /\ LET m == ns[ns[i].p].p IN AttKnown(ns, m, PayloadFs) /\ ~(ReqRefNames(ns, i) \subseteq AttAttrs(ns, m, PayloadFs))
-DanglingResponseMapping(ns) == \E i \in Idx(ns) :
+DanglingBodyAttribute(ns) == \E i \in Idx(ns) :
+  /\ ns[i].p # 0 /\ EndpointBlock(ns, ns[i].p, "HTTP") /\ WellPlaced(ns, i) /\ NoParentSvc(ns)
+  /\ LET m == ns[ns[i].p].p IN AttKnown(ns, m, PayloadFs) /\ ~(BodyRefNames(ns, i) \subseteq AttAttrs(ns, m, PayloadFs))
+InSuccessResponse(ns, i) ==
   /\ ns[i].p # 0 /\ ns[ns[i].p].f = "Response" /\ ns[ns[i].p].n = "-" /\ ns[ns[i].p].p # 0
   /\ EndpointBlock(ns, ns[ns[i].p].p, "HTTP") /\ WellPlaced(ns, i)
+DanglingResponseMapping(ns) == \E i \in Idx(ns) :
+  /\ InSuccessResponse(ns, i)
   /\ LET m == ns[ns[ns[i].p].p].p IN AttKnown(ns, m, ResultFs) /\ ~(ResRefNames(ns, i) \subseteq AttAttrs(ns, m, ResultFs))
+DanglingResponseTag(ns) == \E i \in Idx(ns) :
+  /\ InSuccessResponse(ns, i)
+  /\ LET m == ns[ns[ns[i].p].p].p IN AttKnown(ns, m, ResultFs) /\ ~(TagRefNames(ns, i) \subseteq AttAttrs(ns, m, ResultFs))
 DanglingGRPCMapping(ns) == \E i \in Idx(ns) :
   /\ ns[i].f \in {"Message", "Metadata"} /\ ns[i].v \in OpenVars /\ ns[i].p # 0
   /\ EndpointBlock(ns, ns[i].p, "GRPC") /\ WellPlaced(ns, i)
@@ -697,6 +708,8 @@ DanglingErrorResponse(ns) == \E i \in Idx(ns) :
 
 DanglingKinds(ns) ==
   (IF DanglingRequestMapping(ns) THEN {"request_mapping"} ELSE {}) \cup
+  (IF DanglingBodyAttribute(ns) THEN {"body_attribute"} ELSE {}) \cup
+  (IF DanglingResponseTag(ns) THEN {"response_tag"} ELSE {}) \cup
   (IF DanglingResponseMapping(ns) THEN {"response_mapping"} ELSE {}) \cup
   (IF DanglingGRPCMapping(ns) THEN {"grpc_mapping"} ELSE {}) \cup
   (IF DanglingScheme(ns) THEN {"scheme"} ELSE {}) \cup
@@ -755,13 +768,21 @@ Triggered(d, ns) ==
     \* Message(func() {}) (no attribute) on a method whose payload is not an object: validateMessage dereferences the nil object
     [] d = "crash.grpc_message_empty_dsl" ->
          \E i \in Idx(ns) : ns[i].f = "Message" /\ DeclNames(ns, i) = {}
+    \* Message(func() { Attribute("a"); Attribute("zz") }): validateMessage stops at the first attribute it finds, Finalize dereferences the missing one
+    [] d = "crash.grpc_message_attr_not_in_payload" ->
+         \E i \in Idx(ns) : ns[i].f = "Message" /\ Cardinality(KidsOf(ns, i)) >= 2
+    \* Body(func() {}) (no attribute): the body attribute has no type, Dup panics on it
+    [] d = "crash.body_empty_dsl" ->
+         \E i \in Idx(ns) : ns[i].f = "Body" /\ ns[i].v \in OpenVars \cup {"nilfn"} /\ DeclNames(ns, i) = {}
     [] d = "crash.base_cycle" ->
          \E i \in Idx(ns) : ns[i].f \in {"Extend", "Reference"} /\ ns[i].t \in UserToks /\ Defined(ns, ns[i].t)
     [] OTHER -> FALSE
 CrashDevs == PatDevs \cup {"crash.extend_reference_nil", "crash.service_redefined_nil_dsl", "crash.response_attr_not_in_view", "crash.base_cycle",
-                         "crash.unknown_view_on_result_type", "crash.error_response_headers_undeclared_error", "crash.grpc_message_empty_dsl"}
-AcceptDevs == {"accept.request_mapping", "accept.response_mapping", "accept.grpc_mapping", "accept.scheme", "accept.view", "accept.error_response"}
-KindOfAccept(d) == CASE d = "accept.request_mapping" -> "request_mapping" [] d = "accept.response_mapping" -> "response_mapping"
+                         "crash.unknown_view_on_result_type", "crash.error_response_headers_undeclared_error", "crash.grpc_message_empty_dsl",
+                         "crash.grpc_message_attr_not_in_payload", "crash.body_empty_dsl"}
+AcceptDevs == {"accept.body_attribute", "accept.response_tag", "accept.request_mapping", "accept.response_mapping", "accept.grpc_mapping", "accept.scheme", "accept.view", "accept.error_response"}
+KindOfAccept(d) == CASE d = "accept.body_attribute" -> "body_attribute" [] d = "accept.response_tag" -> "response_tag"
+                     [] d = "accept.request_mapping" -> "request_mapping" [] d = "accept.response_mapping" -> "response_mapping"
                      [] d = "accept.grpc_mapping" -> "grpc_mapping" [] d = "accept.scheme" -> "scheme"
                      [] d = "accept.view" -> "view" [] d = "accept.error_response" -> "error_response" [] OTHER -> "-"
 TriggeredCrashes(ns) == {d \in CrashDevs : Triggered(d, ns)}
